@@ -187,6 +187,7 @@ Example C17_any_input_example :
   strip_nulls_w c17_corrupt [7; 8] = Panic /\ strip_nulls_w c17_corrupt [] = Panic /\
   delete_by_name_w (firstn 3 c17_corrupt) [98] [7; 8] = Err EOther.
 Proof. vm_compute. repeat split; try reflexivity. discriminate. Qed.
+Print Assumptions C17_any_input_example.
 
 (* ---- Value::write_to_vec itself (ser.rs): the caller's buffer is kept and exactly the document's encoding is appended *)
 From JB Require Import CodecProofs.
